@@ -55,6 +55,7 @@ CORPUS_FALLBACK = [
     ("wide", "wchar_t *ws(wchar_t); char16_t c16(char32_t); _Bool bb(_Bool); long double ld(long double);"
              " float _Complex fc(double _Complex); size_t sz(ssize_t); int64_t i64(uint8_t);"),
     ("file", "int fput(FILE *, const char *); typedef struct { FILE *fp; int n; } fw_t;"),
+    ("includes3", "@includes3"),
 ]
 
 
@@ -73,9 +74,32 @@ PREAMBLE = "/* prelude */\n#include <stdio.h>\n"
 
 def make_ffi(text, py):
     import cffi
+    if text.startswith("@"):
+        return BUILDERS[text[1:]](py)
     ffi = cffi.FFI()
     ffi.cdef(text)
     return ffi
+
+
+def _build_includes3(py):
+    """An FFI that include()s three others (each with its own module name)."""
+    import cffi
+    parts = []
+    for nm, decl in (("inc_zeta", "typedef struct za { int a; } za_t; int fz(za_t *);"),
+                     ("inc_alpha", "enum ea { EA1, EA2 = 7 }; typedef enum ea ea_t;"),
+                     ("inc_mid", "struct mm { long long q; };\n#define MMK 12\n")):
+        f = cffi.FFI()
+        f.cdef(decl)
+        f.set_source(nm, None if py else "/* %s */" % nm)
+        parts.append(f)
+    ffi = cffi.FFI()
+    for f in parts:
+        ffi.include(f)
+    ffi.cdef("struct top { za_t z; ea_t e; struct mm m; }; int use(struct top *);")
+    return ffi
+
+
+BUILDERS = {"includes3": _build_includes3}
 
 
 def c_stub_source(text):
@@ -103,7 +127,7 @@ class IOWorld(object):
     def step(self, name, detail=None):
         k = len(self.steps)
         self.steps.append((name, detail))
-        if self.crash_at is not None and k == self.crash_at and not (name == "write" and self.torn is not None):
+        if self.crash_at is not None and k == self.crash_at and not (name in ("flush", "close") and self.torn is not None):
             raise Crash()
         return k
 
@@ -146,35 +170,43 @@ class IOWorld(object):
 
 
 class _F(object):
-    """File wrapper: unbuffered at the granularity the crash model needs."""
+    """File wrapper with the buffering that matters for the crash model: written data sits in
+    user space until flush()/close(); a process death loses it.  Every call is an I/O step."""
 
     def __init__(self, world, real, mode):
         self.w = world
         self.real = real
         self.mode = mode
+        self.pending = []
 
     def read(self, *a):
         self.w.step("read")
         return self.real.read(*a)
 
     def write(self, data):
-        k = self.w.step("write", len(data))
+        self.w.step("write", len(data))          # buffered: nothing reaches the file yet
+        self.pending.append(data)
+        return len(data)
+
+    def _flush_pending(self, stepname):
+        data = "".join(self.pending) if self.pending and isinstance(self.pending[0], str) else b"".join(self.pending)
+        k = self.w.step(stepname, len(data))
         self.w.write_sizes[k] = len(data)
         if self.w.crash_at == k and self.w.torn is not None:
-            self.real.write(data[:self.w.torn])
+            self.real.write(data[:self.w.torn])   # the kernel got only a prefix when the process died
             self.real.flush()
             self.real.close()
             raise Crash()
-        r = self.real.write(data)
+        self.pending = []
+        if data:
+            self.real.write(data)
         self.real.flush()
-        return r
 
     def flush(self):
-        self.w.step("flush")
-        self.real.flush()
+        self._flush_pending("flush")
 
     def close(self):
-        self.w.step("close")
+        self._flush_pending("close")
         self.real.close()
 
     def __enter__(self):
@@ -183,7 +215,7 @@ class _F(object):
     def __exit__(self, *a):
         if a[0] is not None and issubclass(a[0], Crash):
             try:
-                self.real.close()
+                self.real.close()          # the process died: buffered data is lost
             except Exception:
                 pass
             return False
@@ -304,7 +336,7 @@ def crash_work(item):
         if got != new:
             bad.append(("final-content-wrong", {"initial": kind}))
         if kind == "identical":
-            wrote = [n for n in names if n.startswith("open-w") or n in ("write", "rename", "replace", "unlink", "remove")]
+            wrote = [n for n in names if n.startswith("open-w") or n in ("write", "flush", "rename", "replace", "unlink", "remove")]
             if updated is not False:
                 bad.append(("identical-reported-updated", {"initial": kind, "returned": repr(updated)}))
             if wrote:
@@ -331,7 +363,7 @@ def crash_work(item):
         plans = []
         for k in range(nsteps):
             plans.append((k, None))
-            if w.steps[k][0] == "write":
+            if w.steps[k][0] in ("flush", "close") and w.write_sizes.get(k):
                 n = w.write_sizes[k]
                 for t in sorted({0, 1, n // 2, n - 1}):
                     if 0 <= t < n:
@@ -412,8 +444,7 @@ def _gen_both(text):
     try:
         out = []
         for py in (False, True):
-            ffi = cffi.FFI()
-            ffi.cdef(text)
+            ffi = make_ffi(text, py)
             f = io.StringIO()
             try:
                 if py:
@@ -485,8 +516,7 @@ for name, text in c23.corpus():
         os.chdir(d if variant %% 2 else base)
         res = []
         for rep in range(2):
-            ffi = cffi.FFI()
-            ffi.cdef(text)
+            ffi = c23.make_ffi(text, py)
             ffi.set_source("mod_x", None if py else c23.PREAMBLE)
             fn = os.path.join(d, "out_%%s_%%d_%%d.%%s" %% (name, py, rep, "py" if py else "c"))
             try:
